@@ -4,8 +4,11 @@ import (
 	"context"
 	"encoding/json"
 	"fmt"
+	"os"
+	"sync/atomic"
 	"testing"
 
+	api "github.com/yorkie-team/yorkie/api/yorkie/v1"
 	"github.com/yorkie-team/yorkie/client"
 	"github.com/yorkie-team/yorkie/pkg/document"
 	"github.com/yorkie-team/yorkie/pkg/document/crdt"
@@ -21,8 +24,12 @@ import (
 // C19 — concurrent tree edits including merges, splits and styles converge
 // pairwise. The five upstream matrices (test/complex/tree_concurrency_test.go)
 // are re-expressed as data below and enumerated exhaustively: every
-// (range row, op1, op2) x both sync orders x {without, with} a third passive
-// client that attaches late and is fed by a snapshot. Nothing is skipped.
+// (range row, op1, op2) x clock arrangement / role assignment (c19Arrs: which
+// client makes which operation and whose clock is ahead, so that each
+// operation of a pair is made once with the earlier and once with the later
+// ticket) x both push orders x {no third client, a third passive client that
+// attaches after both pushes, one that attaches between the two pushes}; the
+// third client is fed by a snapshot and receives the rest as changes.
 
 type rsel int
 
@@ -322,13 +329,62 @@ func cloneRootTreesEqual(d *document.Document) string {
 // c19Case names one enumerated case.
 type c19Case struct {
 	M, R, O1, O2 int
-	Order        int  // 0: editor 1 syncs first, 1: editor 2 first
+	Order        int  // which client pushes first: 0 = client 1, 1 = client 2
 	Third        bool // a third passive client attaches late (snapshot-fed)
+	// Arr is the clock arrangement / role assignment (c19Arrs): who makes
+	// which operation and whose clock is ahead when the edits are made.
+	Arr int `json:",omitempty"`
+	// Cut says where the third client attaches: 0 = after both pushes,
+	// 1 = between the two pushes (after the first editor's push, before the
+	// second's; it then receives the second edit as an ordinary change).
+	Cut int `json:",omitempty"`
 }
+
+// c19Arrs are the clock arrangements. Client 1 always activates first (the
+// smaller actor id in practice, verified per case) and creates the tree.
+//
+//	upstream  client 1 makes op 1, client 2 makes op 2 (client 2's clock ends
+//	          one tick ahead after the initial exchange)
+//	swapped   client 2 makes op 1, client 1 makes op 2: every operation is
+//	          made once by the smaller and once by the larger actor id
+//	skew-op1  upstream roles, but the maker of op 1 first makes c19SkewK local
+//	          changes on another root key the other has not seen, so op 1
+//	          carries the later lamport
+//	skew-op2  the same for the maker of op 2
+//	tie       upstream roles, but the client whose clock is behind first makes
+//	          as many unseen local changes as it is behind (one, measured), so
+//	          both operations carry the same lamport and the actor id decides:
+//	          op 2 (larger actor id) carries the later ticket
+//	tie-swapped  the same with the roles swapped: op 1 carries the later ticket
+var c19Arrs = []string{"upstream", "swapped", "skew-op1", "skew-op2", "tie", "tie-swapped"}
+
+const (
+	c19SkewK = 3
+	// Third-client cases run in a project whose snapshot threshold is
+	// c19Threshold; client 1 adds c19Pad padding changes to the initial
+	// change set so that the document's server sequence is past the threshold
+	// at every cut (the third client is always fed by a snapshot), while no
+	// editor is ever c19Threshold changes behind (c19SkewK+1 skewed changes
+	// plus the third client's attach change at most): editors always pull
+	// plain changes. Both facts are measured per case from the responses.
+	c19Threshold = 6
+	c19Pad       = 3
+)
+
+// c19Known excludes exactly the named cases that fail on the pinned tree for a
+// registered finding (case name -> finding tag), counted as excluded:<tag>.
+var c19Known = map[string]string{}
 
 func (c c19Case) name(ms []matrix) string {
 	m := ms[c.M]
-	return fmt.Sprintf("%s/%s(%s,%s)/order%d/third=%v", m.name, m.ranges[c.R].desc, m.ops1[c.O1].desc, m.ops2[c.O2].desc, c.Order, c.Third)
+	n := fmt.Sprintf("%s/%s(%s,%s)/order%d/third=%v", m.name, m.ranges[c.R].desc, m.ops1[c.O1].desc, m.ops2[c.O2].desc, c.Order, c.Third)
+	if c.Third && c.Cut == 1 {
+		n += "/cut=between"
+	}
+	if c.Arr != 0 {
+		n += "/arr=" + c19Arrs[c.Arr]
+	}
+	return n
 }
 
 type c19peer struct {
@@ -336,7 +392,17 @@ type c19peer struct {
 	d *document.Document
 }
 
-func runC19(c c19Case) (fail *prog.Failure, nontrivial bool, hist []string) {
+// c19Obs is what one run measured besides the verdict.
+type c19Obs struct {
+	nontrivial    bool
+	later         string // "op1", "op2": which operation carries the later ticket; "" if an operation made no change
+	tie           bool   // equal lamports: the actor id decided
+	actorInverted bool   // actor ids do not sort in activation order
+	thirdSnapshot bool   // the third client's attach was answered with a snapshot
+	editorSnap    bool   // an editor's sync was answered with a snapshot
+}
+
+func runC19(c c19Case) (fail *prog.Failure, obs c19Obs, hist []string) {
 	ms := matrices()
 	m := ms[c.M]
 	tr, o1, o2 := m.ranges[c.R], m.ops1[c.O1], m.ops2[c.O2]
@@ -344,15 +410,30 @@ func runC19(c c19Case) (fail *prog.Failure, nontrivial bool, hist []string) {
 	ctx := context.Background()
 	proj := s.Project(1000, 1000, "c19")
 	if c.Third {
-		proj = s.Project(2, 4, "c19")
+		proj = s.Project(2, c19Threshold, "c19")
 	}
 	k := key.Key(world.FreshDocKey("c19"))
 	logf := func(f string, a ...any) { hist = append(hist, fmt.Sprintf(f, a...)) }
+	// the recorder tells whether the last response carried a snapshot
+	var gotSnap atomic.Bool
+	world.Rec.SetSink(func(ex *world.Exchange) {
+		switch r := ex.Resp.(type) {
+		case *api.AttachDocumentResponse:
+			if len(r.GetChangePack().GetSnapshot()) > 0 {
+				gotSnap.Store(true)
+			}
+		case *api.PushPullChangesResponse:
+			if len(r.GetChangePack().GetSnapshot()) > 0 {
+				gotSnap.Store(true)
+			}
+		}
+	})
 	var peers []*c19peer
 	defer func() {
 		if r := recover(); r != nil {
 			fail = &prog.Failure{Kind: "PANIC", Msg: fmt.Sprintf("%v", r)}
 		}
+		world.Rec.SetSink(nil)
 		for _, p := range peers {
 			_ = p.c.Deactivate(ctx)
 			_ = p.c.Close()
@@ -366,96 +447,195 @@ func runC19(c c19Case) (fail *prog.Failure, nontrivial bool, hist []string) {
 		}
 		p := &c19peer{c: cl, d: document.New(k)}
 		peers = append(peers, p)
+		gotSnap.Store(false)
 		if err := cl.Attach(ctx, p.d); err != nil {
 			return nil, &prog.Failure{Kind: "ATTACHFAIL", Msg: err.Error()}
 		}
 		s.WaitIdle()
+		for _, q := range peers[:len(peers)-1] {
+			if q.d.ActorID().Compare(p.d.ActorID()) >= 0 {
+				obs.actorInverted = true
+			}
+		}
 		return p, nil
 	}
 	sync := func(p *c19peer, who string) *prog.Failure {
-		logf("%s: sync", who)
+		gotSnap.Store(false)
 		if err := p.c.Sync(ctx); err != nil {
+			logf("%s: sync", who)
 			return &prog.Failure{Kind: "SYNCFAIL", Msg: who + ": " + err.Error()}
+		}
+		if gotSnap.Load() {
+			logf("%s: sync (answered with a snapshot)", who)
+			if len(peers) < 3 || p != peers[2] {
+				obs.editorSnap = true
+			}
+		} else {
+			logf("%s: sync", who)
 		}
 		s.WaitIdle()
 		return nil
 	}
 	p1, f := attach()
 	if f != nil {
-		return f, false, hist
+		return f, obs, hist
 	}
 	p2, f := attach()
 	if f != nil {
-		return f, false, hist
+		return f, obs, hist
 	}
 	if err := p1.d.Update(func(r *yjson.Object, p *presence.Presence) error {
 		r.SetNewTree("t", m.init)
 		return nil
 	}); err != nil {
-		return &prog.Failure{Kind: "HARNESS", Msg: "init: " + err.Error()}, false, hist
+		return &prog.Failure{Kind: "HARNESS", Msg: "init: " + err.Error()}, obs, hist
+	}
+	if c.Third {
+		for i := 0; i < c19Pad; i++ {
+			if err := p1.d.Update(func(r *yjson.Object, p *presence.Presence) error {
+				r.SetInteger("pad", i)
+				return nil
+			}); err != nil {
+				return &prog.Failure{Kind: "HARNESS", Msg: "pad: " + err.Error()}, obs, hist
+			}
+		}
 	}
 	if f := sync(p1, "c1"); f != nil {
-		return f, false, hist
+		return f, obs, hist
 	}
 	if f := sync(p2, "c2"); f != nil {
-		return f, false, hist
+		return f, obs, hist
 	}
 	if x := p2.d.Root().GetTree("t").ToXML(); x != m.xml {
-		return &prog.Failure{Kind: "HARNESS", Msg: "bad initial xml " + x}, false, hist
+		return &prog.Failure{Kind: "HARNESS", Msg: "bad initial xml " + x}, obs, hist
 	}
 	logf("initial: %s", m.xml)
-	if err := o1.run(p1.d, 0, tr); err != nil {
-		return &prog.Failure{Kind: "EDITFAIL", Msg: "op1 " + o1.desc + ": " + err.Error()}, false, hist
+
+	// roles and clock skew
+	ed := [2]*c19peer{p1, p2} // ed[i] makes operation i+1
+	edn := [2]string{"c1", "c2"}
+	if a := c19Arrs[c.Arr]; a == "swapped" || a == "tie-swapped" {
+		ed, edn = [2]*c19peer{p2, p1}, [2]string{"c2", "c1"}
 	}
-	x1 := p1.d.Root().GetTree("t").ToXML()
-	logf("c1: %s on %s -> %s", o1.desc, tr.desc, x1)
-	if err := o2.run(p2.d, 1, tr); err != nil {
-		return &prog.Failure{Kind: "EDITFAIL", Msg: "op2 " + o2.desc + ": " + err.Error()}, false, hist
+	if a := c19Arrs[c.Arr]; a == "skew-op1" || a == "skew-op2" {
+		w := 0
+		if a == "skew-op2" {
+			w = 1
+		}
+		for i := 0; i < c19SkewK; i++ {
+			if err := ed[w].d.Update(func(r *yjson.Object, p *presence.Presence) error {
+				r.SetInteger("skew", i)
+				return nil
+			}); err != nil {
+				return &prog.Failure{Kind: "HARNESS", Msg: "skew: " + err.Error()}, obs, hist
+			}
+		}
+		logf("%s: %d local changes on root key \"skew\" (not synced)", edn[w], c19SkewK)
 	}
-	x2 := p2.d.Root().GetTree("t").ToXML()
-	logf("c2: %s on %s -> %s", o2.desc, tr.desc, x2)
-	nontrivial = x1 != m.xml && x2 != m.xml
+	if a := c19Arrs[c.Arr]; a == "tie" || a == "tie-swapped" {
+		w, d := 0, ed[1].d.InternalDocument().Lamport()-ed[0].d.InternalDocument().Lamport()
+		if d < 0 {
+			w, d = 1, -d
+		}
+		if d > c19SkewK {
+			return &prog.Failure{Kind: "HARNESS", Msg: fmt.Sprintf("tie: clocks %d apart", d)}, obs, hist
+		}
+		for i := 0; i < int(d); i++ {
+			if err := ed[w].d.Update(func(r *yjson.Object, p *presence.Presence) error {
+				r.SetInteger("skew", i)
+				return nil
+			}); err != nil {
+				return &prog.Failure{Kind: "HARNESS", Msg: "tie: " + err.Error()}, obs, hist
+			}
+		}
+		logf("%s: %d local changes on root key \"skew\" (not synced): clocks level", edn[w], d)
+	}
+	var lam [2]int64
+	var changed [2]bool
+	var xs [2]string
+	for i, op := range []mop{o1, o2} {
+		before := ed[i].d.InternalDocument().Lamport()
+		if err := op.run(ed[i].d, i, tr); err != nil {
+			return &prog.Failure{Kind: "EDITFAIL", Msg: fmt.Sprintf("op%d %s: %s", i+1, op.desc, err.Error())}, obs, hist
+		}
+		lam[i] = ed[i].d.InternalDocument().Lamport()
+		changed[i] = lam[i] != before
+		xs[i] = ed[i].d.Root().GetTree("t").ToXML()
+		logf("%s: op%d %s on %s -> %s (lamport %d, actor ..%s)", edn[i], i+1, op.desc, tr.desc, xs[i], lam[i], ed[i].d.ActorID().String()[16:])
+	}
+	obs.nontrivial = xs[0] != m.xml && xs[1] != m.xml
+	if changed[0] && changed[1] {
+		cmp := 0
+		switch {
+		case lam[0] > lam[1]:
+			cmp = 1
+		case lam[0] < lam[1]:
+			cmp = -1
+		default:
+			obs.tie = true
+			cmp = ed[0].d.ActorID().Compare(ed[1].d.ActorID())
+		}
+		obs.later = "op2"
+		if cmp > 0 {
+			obs.later = "op1"
+		}
+	}
+
 	order := []*c19peer{p1, p2}
 	names := []string{"c1", "c2"}
 	if c.Order == 1 {
 		order = []*c19peer{p2, p1}
 		names = []string{"c2", "c1"}
 	}
-	for round := 0; round < 2; round++ {
-		for i, p := range order {
-			if f := sync(p, names[i]); f != nil {
-				return f, nontrivial, hist
-			}
-		}
-	}
 	all := []*c19peer{p1, p2}
-	if c.Third {
+	third := func(when string) *prog.Failure {
 		p3, f := attach()
 		if f != nil {
 			f.Kind = "THIRD-" + f.Kind
-			return f, nontrivial, hist
+			return f
 		}
-		logf("c3: late attach (snapshot-fed)")
+		obs.thirdSnapshot = gotSnap.Load()
+		logf("c3: attach %s (snapshot-fed: %v)", when, obs.thirdSnapshot)
 		all = append(all, p3)
+		return nil
+	}
+	for round := 0; round < 2; round++ {
+		for i, p := range order {
+			if f := sync(p, names[i]); f != nil {
+				return f, obs, hist
+			}
+			if c.Third && c.Cut == 1 && round == 0 && i == 0 {
+				if f := third("between the two pushes"); f != nil {
+					return f, obs, hist
+				}
+			}
+		}
+	}
+	if c.Third {
+		if c.Cut == 0 {
+			if f := third("after both pushes"); f != nil {
+				return f, obs, hist
+			}
+		}
 		for round := 0; round < 2; round++ {
 			for i, p := range all {
 				if f := sync(p, fmt.Sprintf("c%d", i+1)); f != nil {
-					return f, nontrivial, hist
+					return f, obs, hist
 				}
 			}
 		}
 	}
 	for i, p := range all[1:] {
 		if a, b := p1.d.Marshal(), p.d.Marshal(); a != b {
-			return &prog.Failure{Kind: "DIVERGED", Msg: fmt.Sprintf("c1 %s vs c%d %s", p1.d.Root().GetTree("t").ToXML(), i+2, p.d.Root().GetTree("t").ToXML())}, nontrivial, hist
+			return &prog.Failure{Kind: "DIVERGED", Msg: fmt.Sprintf("c1 %s vs c%d %s", p1.d.Root().GetTree("t").ToXML(), i+2, p.d.Root().GetTree("t").ToXML())}, obs, hist
 		}
 	}
 	for i, p := range all {
 		if s := cloneRootTreesEqual(p.d); s != "" {
-			return &prog.Failure{Kind: "CLONE!=ROOT", Msg: fmt.Sprintf("c%d: %s", i+1, s)}, nontrivial, hist
+			return &prog.Failure{Kind: "CLONE!=ROOT", Msg: fmt.Sprintf("c%d: %s", i+1, s)}, obs, hist
 		}
 	}
-	return nil, nontrivial, hist
+	return nil, obs, hist
 }
 
 func init() {
@@ -464,9 +644,31 @@ func init() {
 		if err := json.Unmarshal(raw, &c); err != nil {
 			return &prog.Failure{Kind: "HARNESS", Msg: err.Error()}
 		}
-		f, _, _ := runC19(c)
+		ms := matrices()
+		if c.M < 0 || c.M >= len(ms) || c.R < 0 || c.R >= len(ms[c.M].ranges) || c.O1 < 0 || c.O1 >= len(ms[c.M].ops1) ||
+			c.O2 < 0 || c.O2 >= len(ms[c.M].ops2) || c.Arr < 0 || c.Arr >= len(c19Arrs) || c.Cut < 0 || c.Cut > 1 || c.Order < 0 || c.Order > 1 {
+			return &prog.Failure{Kind: "HARNESS", Msg: "case out of range"}
+		}
+		f, _, hist := runC19(c)
+		if os.Getenv("VERIF_SHOW_HISTORY") != "" {
+			fmt.Printf("    case %s\n", c.name(ms))
+			for _, h := range hist {
+				fmt.Printf("    %s\n", h)
+			}
+		}
 		return f
 	}
+}
+
+// c19Thirds are the third-client variants: {Third, Cut}.
+var c19Thirds = []struct {
+	third bool
+	cut   int
+	label string
+}{
+	{false, 0, "third:none"},
+	{true, 0, "third:after_both_pushes"},
+	{true, 1, "third:between_the_pushes"},
 }
 
 func TestC19(t *testing.T) {
@@ -474,45 +676,82 @@ func TestC19(t *testing.T) {
 	defer col.Flush(true)
 	ms := matrices()
 	sh, n := shard()
-	seed := envInt("VERIF_SEED", 1)
-	idx, total, ran := 0, 0, 0
+	pairIdx, idx, total, ran := 0, 0, 0, 0
+	thirdCases, thirdSnap, editorSnap, inverted := 0, 0, 0, 0
 	for mi, m := range ms {
 		for ri := range m.ranges {
-			for i1, o1 := range m.ops1 {
-				for i2, o2 := range m.ops2 {
-					for order := 0; order < 2; order++ {
-						for _, third := range []bool{false, true} {
-							idx++
-							total++
-							if idx%n != sh {
-								continue
-							}
-							_, _, _ = o1, o2, seed
-							c := c19Case{mi, ri, i1, i2, order, third}
-							fail, nontrivial, hist := runC19(c)
-							ran++
-							cls := map[string]int{"matrix:" + m.name: 1}
-							if third {
-								cls["third_snapshot_client"] = 1
-							}
-							if !nontrivial {
-								cls["trivial_op_changed_nothing"] = 1
-							}
-							h := uint64(idx)
-							col.Record(h, fail == nil && nontrivial, cls, func() any {
-								return map[string]any{"case": c.name(ms), "history": hist}
-							})
-							if fail != nil {
-								if fail.Kind == "HARNESS" {
-									fmt.Printf("HARNESS-ERROR property=C19 %s\n", fail.Msg)
-									t.Fatalf("harness: %s", fail.Msg)
+			for i1 := range m.ops1 {
+				for i2 := range m.ops2 {
+					// shards take residue classes of the pair index, so that
+					// every shard runs all variants of its pairs
+					pairIdx++
+					mine := pairIdx%n == sh
+					for arr := range c19Arrs {
+						for order := 0; order < 2; order++ {
+							for _, tv := range c19Thirds {
+								idx++
+								total++
+								if !mine {
+									continue
 								}
-								raw, _ := json.Marshal(c)
-								rf := ReplayFile{Prop: "C19", Kind: "c19", Case: raw, Failure: c.name(ms) + ": " + fail.Error(), History: hist}
-								path := writeReplay(rf, fmt.Sprintf("matrix-%d-%d-%d-%d-%d-%v", mi, ri, i1, i2, order, third))
-								col.AddViolation(stats.Violation{Replay: path, Kind: fail.Kind, Msg: c.name(ms) + ": " + fail.Msg})
-								fmt.Printf("VIOLATION-FOUND property=C19 replay=%s kind=%s case=%s\n  %s\n", path, fail.Kind, c.name(ms), fail.Error())
-								t.Errorf("%s: %s", c.name(ms), fail.Error())
+								c := c19Case{M: mi, R: ri, O1: i1, O2: i2, Order: order, Third: tv.third, Arr: arr, Cut: tv.cut}
+								name := c.name(ms)
+								if tag, ok := c19Known[name]; ok && os.Getenv("VERIF_NO_EXCLUSIONS") == "" {
+									col.Record(uint64(idx), false, map[string]int{"excluded:" + tag: 1}, nil)
+									continue
+								}
+								fail, obs, hist := runC19(c)
+								ran++
+								cls := map[string]int{"matrix:" + m.name: 1, "arr:" + c19Arrs[arr]: 1, tv.label: 1,
+									fmt.Sprintf("push_first:c%d", order+1): 1}
+								if tv.third {
+									cls["third_snapshot_client"] = 1
+									thirdCases++
+									if obs.thirdSnapshot {
+										thirdSnap++
+										cls["third_attach_answered_with_snapshot"] = 1
+									}
+								}
+								if obs.editorSnap {
+									editorSnap++
+									cls["editor_sync_answered_with_snapshot"] = 1
+								}
+								if obs.actorInverted {
+									inverted++
+									cls["actor_ids_not_in_activation_order"] = 1
+								}
+								if obs.later != "" {
+									l := "later_ticket:" + obs.later
+									cls[l] = 1
+									cls["arr:"+c19Arrs[arr]+"/"+l] = 1
+									if obs.tie {
+										cls["lamport_tie_decided_by_actor"] = 1
+									}
+									// the kind of operation that carries the later ticket
+									lk := m.ops1[i1].kind
+									if obs.later == "op2" {
+										lk = m.ops2[i2].kind
+									}
+									cls["later_ticket_kind:"+lk] = 1
+								}
+								if !obs.nontrivial {
+									cls["trivial_op_changed_nothing"] = 1
+								}
+								col.Record(uint64(idx), fail == nil && obs.nontrivial, cls, func() any {
+									return map[string]any{"case": name, "history": hist}
+								})
+								if fail != nil {
+									if fail.Kind == "HARNESS" {
+										fmt.Printf("HARNESS-ERROR property=C19 %s\n", fail.Msg)
+										t.Fatalf("harness: %s", fail.Msg)
+									}
+									raw, _ := json.Marshal(c)
+									rf := ReplayFile{Prop: "C19", Kind: "c19", Case: raw, Failure: name + ": " + fail.Error(), History: hist}
+									path := writeReplay(rf, fmt.Sprintf("matrix-%d-%d-%d-%d-%d-%v-a%d-c%d", mi, ri, i1, i2, order, tv.third, arr, tv.cut))
+									col.AddViolation(stats.Violation{Replay: path, Kind: fail.Kind, Msg: name + ": " + fail.Msg})
+									fmt.Printf("VIOLATION-FOUND property=C19 replay=%s kind=%s case=%s\n  %s\n", path, fail.Kind, name, fail.Error())
+									t.Errorf("%s: %s", name, fail.Error())
+								}
 							}
 						}
 					}
@@ -520,7 +759,21 @@ func TestC19(t *testing.T) {
 			}
 		}
 	}
-	col.SetExtra("matrix_cases_total", total)
-	col.SetExhaustive(true)
-	col.Note("C19: %d enumerated cases in the five matrices x 2 sync orders x {no third, third snapshot-fed client}; this shard ran %d", total, ran)
+	if sh == 0 {
+		col.SetExtra("matrix_cases_total", total)
+		col.SetExtra("matrix_pairs_total", pairIdx)
+	}
+	col.SetExtra("actor_ids_not_in_activation_order", inverted)
+	// The enumeration is complete (every shard ran its whole residue class);
+	// it only counts as exhaustive for the stated quantifier if the third
+	// client really was fed by a snapshot in every third-client case.
+	col.SetExhaustive(thirdSnap == thirdCases)
+	if thirdSnap != thirdCases {
+		col.Note("C19: the third client was NOT answered with a snapshot in %d of %d third-client cases of shard %d", thirdCases-thirdSnap, thirdCases, sh)
+	}
+	if editorSnap > 0 {
+		col.Note("C19: an editor was answered with a snapshot in %d cases of shard %d (the arrangement intends editors to pull plain changes)", editorSnap, sh)
+	}
+	col.Note("C19: %d enumerated cases = %d pairs of the five matrices x %d clock arrangements %v x 2 push orders x {no third client, third snapshot-fed client after both pushes, between the pushes}",
+		total, pairIdx, len(c19Arrs), c19Arrs)
 }
